@@ -857,6 +857,8 @@ pub struct ForeignOpts {
     pub regular: Option<u32>,
     /// 0: every padding site decides independently; k >= 1: only the k-th padding site (in file order) gets padding
     pub gap_mode: u8,
+    /// shift all ids so that the last entry's run ends exactly on the last z/x/y-addressable id (zoom 31, x = 2^31-1, y = 0)
+    pub end_at_domain: bool,
 }
 
 /// Independent spec-level archive writer. Produces bytes + ground truth.
@@ -958,6 +960,15 @@ pub fn gen_foreign(rng: &mut Rng, o: &ForeignOpts) -> Foreign {
         });
         let gap = if o.regular.is_some() || rng.chance(2, 3) { 0 } else { rng.log_range(1, 1 << 16) };
         id += u64::from(run) + gap;
+    }
+    if o.end_at_domain {
+        if let Some(last) = entries.last() {
+            let end = last.tile_id + u64::from(last.run_length);
+            let shift = id_domain() - end;
+            for e in &mut entries {
+                e.tile_id += shift;
+            }
+        }
     }
     // ---- directory tree
     let mut leaf_section: Vec<u8> = Vec::new();
@@ -1221,5 +1232,6 @@ pub fn gen_foreign_opts(rng: &mut Rng, codec: u8, max_entries: usize) -> Foreign
         alias_leaf_offset: rng.chance(1, 6),
         regular: None,
         gap_mode: if rng.chance(1, 2) { 0 } else { rng.range(1, 5) as u8 },
+        end_at_domain: rng.chance(1, 12),
     }
 }
